@@ -15,6 +15,7 @@ fn factory(model: &str) -> Option<Factory> {
         "indexes" => Box::new(|c: &Value| Box::new(models::indexes::IXWrap::new(c)) as Box<dyn Model>),
         "agenda" => Box::new(|c: &Value| Box::new(models::agenda::AG::new(c)) as Box<dyn Model>),
         "checkpoint" => Box::new(|c: &Value| Box::new(models::checkpoint::CK::new(c)) as Box<dyn Model>),
+        "windows" => Box::new(|c: &Value| Box::new(models::windows::WN::new(c)) as Box<dyn Model>),
         _ => return None,
     })
 }
